@@ -128,6 +128,7 @@ class Interp:
         self.extern = {}         # def path -> summary fn (filled by stdsum)
         self.contracts = {}      # (trait, method) -> summary fn for calls on type parameters
         self.on_call = []        # hooks(interp, frame, term, st, callee_name, args)
+        self.on_call_result = [] # hooks(interp, frame, bb, term, callee, args, outcomes)
         self.on_assign = []      # hooks(interp, frame, bb, stmt, st, val)
         self.on_return = []      # hooks(interp, frame, st, val)
         self.join_exits = join_exits or (lambda body: False)
@@ -375,7 +376,16 @@ class Interp:
                     raise Unsupported("projection %r into opaque %r" % (s, v))
                 self.write_raw(st, root, done, nv)
                 v = nv
-            v = self.descend(st, v, s)
+            if s[0] == "ix" and isinstance(v, VArrS) and v.allv is None:
+                # element of a summarised array: the same (unwritten) element always reads as the same value
+                key = ("elem", root, done, s[1])
+                ev = st.ghost.get(key)
+                if ev is None:
+                    ev = self.fresh_value(st, v.ety, "elem")
+                    st.ghost[key] = ev
+                v = ev
+            else:
+                v = self.descend(st, v, s)
             done = done + (s,)
         return v
 
@@ -449,7 +459,7 @@ class Interp:
 
     def write_raw(self, st, root, steps, val):
         if st.ghost:
-            for k in [k for k in st.ghost if isinstance(k, tuple) and k and k[0] == "deref" and k[1] == root]:
+            for k in [k for k in st.ghost if isinstance(k, tuple) and k and k[0] in ("deref", "elem") and k[1] == root]:
                 del st.ghost[k]
         if not steps:
             st.mem[root] = val
@@ -1050,6 +1060,8 @@ class Interp:
             for h in self.on_call:
                 h(self, frame, bb, t, st, callee, args)
             outs = self.dispatch(frame, bb, st, callee, args, dest_ty)
+            for h in self.on_call_result:
+                h(self, frame, bb, t, callee, args, outs)
         res = []
         for s2, val in outs:
             if t["target"] is None:
@@ -1136,8 +1148,12 @@ class Interp:
                 v = callee["ctor_variant"]
                 return [(st, VEnum(callee["ctor_adt"], Lin.const(v), {v: tuple(args)}))]
             return [(st, VAgg("struct", callee["ctor_adt"], args))]
-        if self.opaque_fn is not None and self.opaque_fn(callee):
-            return self.havoc_call(frame, st, args, dest_ty, "out-of-scope " + (res["def"] if res else name))
+        if self.opaque_fn is not None:
+            oq = self.opaque_fn(callee)
+            if callable(oq):
+                return oq(self, frame, bb, st, callee, args, dest_ty)
+            if oq:
+                return self.havoc_call(frame, st, args, dest_ty, "out-of-scope " + (res["def"] if res else name))
         # 1. rustc resolved it to a local body
         if res and res["local"] and res["def"] in self.f.bodies and res["ik"] == "item":
             body = self.f.bodies[res["def"]]
